@@ -73,6 +73,11 @@ def run_finder(unit_name, failure, scratch):
         return {"error": "finder failed: %s" % e}
 
 
+def finder_props(why, spec):
+    import re
+    return re.findall(r"\((C\d+)\)", why)
+
+
 def check_property(pid, tier, keep=False):
     t0 = time.time()
     seed = int(os.environ.get("VERIF_SEED", "0") or 0)
@@ -126,12 +131,26 @@ def check_property(pid, tier, keep=False):
                     violations.append((f, path, bool(extra and extra.get("failing_input"))))
                 else:
                     notes.append("obligation of %s failed (not attributed to %s): %s" % (",".join(f["props"]), pid, f["obligation"]))
+            if und and not [f for f in failures if pid in f["props"]]:
+                # Verus could not decide this unit (e.g. a function was rewritten beyond what the annotations fit).
+                # Bounded fallback, labelled as such: the unit's finder runs the real compiled code against the
+                # executable contract; a concrete failing input is a violation in its own right.
+                fr = run_finder(uname, None, scratch)
+                if fr and fr.get("input") and pid in finder_props(fr["input"].get("why", ""), spec):
+                    v = {"obligation": "%s/executable-contract (bounded fallback, Verus undecided): %s" % (uname, fr["input"]["why"]), "unit": uname, "fn": "-", "kind": "runtime",
+                         "message": "verifier undecided (%s); the real compiled code fails the executable form of the contract on a concrete input" % "; ".join(und)[:300],
+                         "clause": fr["input"]["why"], "at": fr["input"]["case"], "spans": [], "props": [pid]}
+                    path = write_replay(pid, v, "finder", b, {"failing_input": fr["input"], "finder": fr})
+                    violations.append((v, path, True))
             if tier == "thorough" and not und:
                 import thorough
                 thorough_info[uname] = thorough.run(b, scratch, pid, seed, failures)
                 for u in thorough_info[uname].get("undecided", []):
                     undecided.append("%s: %s" % (uname, u))
-                for v in thorough_info[uname].get("violations", []):
+                for v in thorough_info[uname].pop("violations", []):
+                    if pid not in finder_props(v.get("message", ""), spec):
+                        notes.append("run-time cross-check failure attributed to another property: " + v["obligation"])
+                        continue
                     path = write_replay(pid, v, v.get("cmd", ""), b, {"failing_input": v.get("input"), "finder": v})
                     violations.append((v, path, True))
     finally:
@@ -230,6 +249,19 @@ def main(argv):
             if "--keep" not in argv:
                 shutil.rmtree(d, ignore_errors=True)
         return 0
+    if len(argv) >= 2 and argv[0] == "--replay-graph-case":
+        import finders
+        d = tempfile.mkdtemp(prefix="verif-replay-")
+        try:
+            exe = finders.build_graph_finder(d)
+            r = finders.run_graph_finder(exe, ["case", argv[1]])
+            for f in r["failures"]:
+                print("real core/graph.rs FAILS the executable contract on case %s: %s" % (f["case"], f["why"]))
+            if not r["failures"]:
+                print("case %s: the real code satisfies the executable contract" % argv[1])
+            return 1 if r["failures"] else 0
+        finally:
+            shutil.rmtree(d, ignore_errors=True)
     if len(argv) >= 2 and argv[0] == "--replay":
         import replay
         return replay.main(argv[1])
